@@ -240,7 +240,11 @@ def create(spec, yaw):
     else:
         raise ValueError(spec["patch"])
     if spec["source"] == "random":
-        gen = yaw.randoms.BoxRandoms(20.0, 160.0, -30.0, 40.0, seed=spec["dseed"])
+        # the window hugs the real centres (+-6 deg), so that no random point can be nearer to the extra,
+        # far-away centre of the empty-centre scenario than to a real one
+        ras, decs = [c[0] for c in cent], [c[1] for c in cent]
+        gen = yaw.randoms.BoxRandoms(min(ras) - 6.0, max(ras) + 6.0, max(-90.0, min(decs) - 6.0), min(90.0, max(decs) + 6.0),
+                                     seed=spec["dseed"])
         kw.pop("patch_name", None)
         return yaw.Catalog.from_random(spec["cache"], gen, spec["n"], **kw)
     kw.update(ra_name="ra", dec_name="dec")
